@@ -117,6 +117,10 @@ Sweep(r, b, j, n, ins) ==
        THEN Sweep([r EXCEPT ![j] = Plus(r[j - 1], ins)], [b EXCEPT ![j] = -1], j + 1, n, ins)
        ELSE Sweep(r, b, j + 1, n, ins)
 
+\* TLC keeps [j \in S |-> e] as an unevaluated closure; a row defined from the previous row would re-evaluate the whole chain of
+\* earlier rows on every access (exponential in the number of source symbols).  f @@ <<>> yields the explicit table.
+Explicit(f) == f @@ <<>>
+
 \* one source symbol of the plain machine: <<new row, new backtrack row>>
 PlainFn(r, s, t, c) ==
   LET n == Len(t)
@@ -125,7 +129,7 @@ PlainFn(r, s, t, c) ==
       sub(j) == j >= 1 /\ c4s(j) < d1(j)
       r1 == [j \in 0..n |-> IF sub(j) THEN c4s(j) ELSE d1(j)]
       b1 == [j \in 0..n |-> IF sub(j) THEN 0 ELSE 1]
-  IN Sweep(r1, b1, 1, n, c[2])
+  IN Sweep(Explicit(r1), Explicit(b1), 1, n, c[2])
 
 \* one source symbol of the substring machine (unit costs): <<new row, new backtrack row>>
 SubFn(r, s, t) ==
@@ -136,7 +140,7 @@ SubFn(r, s, t) ==
       sub(j) == inner(j) /\ c4s(j) < d1(j)
       r1 == [j \in 0..n + 1 |-> IF sub(j) THEN c4s(j) ELSE IF inner(j) THEN d1(j) ELSE r[j]]
       b1 == [j \in 0..n + 1 |-> IF sub(j) THEN 0 ELSE 1]
-      sw == Sweep(r1, b1, 1, n, 1)
+      sw == Sweep(Explicit(r1), Explicit(b1), 1, n, 1)
       r2 == sw[1]
       b2 == sw[2]
   IN IF r2[n + 1] = r2[n] THEN <<r2, [b2 EXCEPT ![n + 1] = 0]>>                         \* best end tied here
@@ -188,20 +192,22 @@ SubAlignOf(m_, ss, st, swapped) ==
 SubAlign == SubAlignOf(sbt, ssrc, stgt, Len(tgt) > Len(src))
 
 \* the machines run to completion as operators (used by the trace layer to compare tie-breaks: drift only)
-RECURSIVE PlainRun(_, _, _, _)
-PlainRun(s, t, c, k) == IF k = 0 THEN PlainInit(t, c)
-                        ELSE LET p == PlainRun(s, t, c, k - 1)
-                                 st == PlainFn(p[1], s[k], t, c)
-                             IN <<st[1], Append(p[2], st[2])>>
-MachineAl(s, t, c) == Walk(PlainRun(s, t, c, Len(s))[2], s, t, Len(s), Len(t))
-RECURSIVE SubRun(_, _, _)
-SubRun(s, t, k) == IF k = 0 THEN SubInit(t)
-                   ELSE LET p == SubRun(s, t, k - 1)
-                            st == SubFn(p[1], s[k], t)
-                        IN <<st[1], Append(p[2], st[2])>>
+RECURSIVE PlainLoop(_, _, _, _, _, _)
+PlainLoop(s, t, c, k, r, b) == IF k > Len(s) THEN <<r, b>>
+                               ELSE LET st == PlainFn(r, s[k], t, c)
+                                    IN PlainLoop(s, t, c, k + 1, st[1], Append(b, st[2]))
+PlainRun(s, t, c) == PlainLoop(s, t, c, 1, PlainInit(t, c)[1], PlainInit(t, c)[2])
+\* (bound through a set so that TLC evaluates the backtrack matrix once, not once per use inside Walk)
+TheOne(S) == CHOOSE x \in S : TRUE
+MachineAl(s, t, c) == TheOne({Walk(m, s, t, Len(s), Len(t)) : m \in {PlainRun(s, t, c)[2]}})
+RECURSIVE SubLoop(_, _, _, _, _)
+SubLoop(s, t, k, r, b) == IF k > Len(s) THEN <<r, b>>
+                          ELSE LET st == SubFn(r, s[k], t)
+                               IN SubLoop(s, t, k + 1, st[1], Append(b, st[2]))
+SubRun(s, t) == SubLoop(s, t, 1, SubInit(t)[1], SubInit(t)[2])
 MachineSubAl(a, b) == LET ss == Longer(a, b)
                           st == Shorter(a, b)
-                      IN SubAlignOf(SubRun(ss, st, Len(ss))[2], ss, st, Len(b) > Len(a))
+                      IN TheOne({SubAlignOf(m, ss, st, Len(b) > Len(a)) : m \in {SubRun(ss, st)[2]}})
 
 Backtrack == /\ phase = "scan" /\ i >= Len(src) /\ i >= Len(ssrc)
              /\ phase' = "done"
